@@ -174,6 +174,9 @@ def run(ctx):
         if len(samples) < 4:
             samples += (info.get("samples") or [])[:2]
     compared = stats.get("spec_predictions_compared", 0)
+    derrs = [info.get("driver_error") for _, (tr, info) in results if info.get("driver_error")]
+    if derrs and not ctx.violations:
+        raise Broken("driver stopped: %s" % derrs[0])
     if not ctx.violations:       # coverage sanity (a violating tree may legitimately starve a class)
         for need in ("minted", "lockedquai", "reverted", "prime_blocks_with_conversions"):
             if stats.get(need, 0) == 0:
